@@ -334,11 +334,8 @@ def run(cx, out):
         out.floor('R13.3', 'ConstEncodedLen impls [%s]' % cfg, n, 46)
         check_fixed_size(out, facts, S)
     # derived impls: the corpus of C05 (R13.2)
-    from . import c05
-    from ..report import Out
-    sub = Out('C05')
-    c05.run(cx, sub)
+    from . import shared
     out.rule('R13.2', 'derived max_encoded_len >= maxlen of the layout declared by the definition (derive corpus of C05)')
-    out.absorb(sub, {'R13.2'})
+    shared.premises(cx, out, {'c05': {'R13.2'}})
     from . import positive
     positive.check(cx, out, 'C13')
